@@ -1347,6 +1347,47 @@ func (k *karr) taintLoopExitGuard(ctx int, this ssa.Value, es *space, b *ssa.Bas
 	if !reach(b.Succs[1-si], nil, nil)[b] || reach(succ, nil, nil)[b] {
 		return
 	}
+	// only for loops that look like unit-step counting loops (a compared quantity moves by exactly one somewhere in the
+	// loop): those are the loops whose exit value the proofs rely on (A5); a loop with another stride (the padding loop of
+	// Close, the word loops of the array operations) never gets its exit value from the guard, so nothing is missing
+	inLoop := map[*ssa.BasicBlock]bool{b: true}
+	for blk := range reach(b.Succs[1-si], nil, nil) {
+		if reach(blk, nil, nil)[b] {
+			inLoop[blk] = true
+		}
+	}
+	unitStep := func(v ssa.Value) bool {
+		isOne := func(x ssa.Value) bool {
+			c, ok := constInt(x)
+			return ok && (c == 1 || c == -1)
+		}
+		if u, ok := v.(*ssa.UnOp); ok && u.Op == token.MUL {
+			if f, ok := k.isThisField(this, u.X); ok {
+				for blk := range inLoop {
+					for _, in := range blk.Instrs {
+						if st, ok := in.(*ssa.Store); ok {
+							if f2, ok := k.isThisField(this, st.Addr); ok && f2 == f {
+								if add, ok := st.Val.(*ssa.BinOp); ok && (add.Op == token.ADD || add.Op == token.SUB) && isOne(add.Y) {
+									return true
+								}
+							}
+						}
+					}
+				}
+			}
+		}
+		if ph, ok := v.(*ssa.Phi); ok {
+			for _, e := range ph.Edges {
+				if add, ok := e.(*ssa.BinOp); ok && (add.Op == token.ADD || add.Op == token.SUB) && isOne(add.Y) && inLoop[add.Block()] {
+					return true
+				}
+			}
+		}
+		return false
+	}
+	if !unitStep(bo.X) && !unitStep(bo.Y) {
+		return
+	}
 	for _, v := range []ssa.Value{bo.X, bo.Y} {
 		if x, ok := k.vals[kvalKey{ctx, v, -1}]; ok {
 			es.markTaint(x)
